@@ -160,8 +160,20 @@ def crash_case(ctx, wname, k, when, scratch, base_dump=None):
                 # after the interrupted recording was repeated, the content-addressed provenance must be complete:
                 # every row of the fault-free recording is present (nothing was lost for good)
                 now = dbaudit.dump(p2)
+                # Calls above a catch() are exempt: when the death fell after the catch evaluation was recorded, the re-run
+                # replays the recovery from that record (no recover job), so the guarded call and the root legitimately
+                # get another child list and hence another call hash than in the fault-free recording.
+                exempt = {r[0] for r in base_dump.get("call_node", []) if r[1] in ("'vh.guarded'", "'redun.root_task'")} \
+                    if wname == "mixed" else set()
                 for t in ("call_node", "argument", "argument_result", "call_edge", "call_subtree_task", "evaluation", "task", "subvalue"):
                     lost = set(base_dump.get(t, [])) - set(now.get(t, []))
+                    if exempt and t in ("call_node", "call_edge", "call_subtree_task"):
+                        lost = {r for r in lost if r[0] not in exempt}
+                    elif exempt and t == "argument":
+                        lost = {r for r in lost if not (set(r) & exempt)}
+                    elif exempt and t == "argument_result":
+                        lost = {r for r in lost if not (set(r) & exempt)
+                                and not any(r[0] == a[0] for a in base_dump.get("argument", []) if set(a) & exempt)}
                     ctx.count("recovered_tables_compared")
                     if lost:
                         ctx.violation("records-missing-after-interrupted-recording-was-repeated:" + t,
@@ -341,7 +353,8 @@ def replay(ctx, witness):
     scratch = tempfile.mkdtemp(prefix="verif_c22r_")
     try:
         if "crash" in witness:
-            crash_case(ctx, witness["workload"], witness["crash"][0], witness["crash"][1], scratch)
+            nc, ns, key, dmp = measure(witness["workload"], scratch)
+            crash_case(ctx, witness["workload"], witness["crash"][0], witness["crash"][1], scratch, dmp)
         else:
             nc, ns, key, dmp = measure(witness["workload"], scratch)
             transient_case(ctx, witness["workload"], witness["transient_statement"], scratch, dmp, key)
